@@ -265,7 +265,7 @@ def _run(mod, prop: str, args, seed: int, t0: float) -> int:
         rep = lst[0]
         case = rep["case"]
         info = {}
-        if i < 6 and not getattr(mod, "NO_SHRINK", False):
+        if i < 6 and not getattr(mod, "NO_SHRINK", False) and (not hasattr(mod, "shrinkable") or mod.shrinkable(case)):
             def still_fails(c, _b=b):
                 return any(_bucket_of(f) == _b for f in _check_case_json(mod, c))
 
@@ -338,7 +338,7 @@ def _run(mod, prop: str, args, seed: int, t0: float) -> int:
         f"{prop} {tier} seed={seed}: evaluations={evaluations} distinct_nontrivial={cov['distinct_nontrivial']} "
         f"violations={violations} known={excluded} wall={wall:.1f}s"
     )
-    if hasattr(mod, "min_nontrivial") and cov["distinct_nontrivial"] < mod.min_nontrivial(tier) * args.scale:
+    if not args.parts and hasattr(mod, "min_nontrivial") and cov["distinct_nontrivial"] < mod.min_nontrivial(tier) * args.scale:
         raise core.HarnessError(
             f"generator produced only {cov['distinct_nontrivial']} non-trivial cases "
             f"(< {mod.min_nontrivial(tier)}): fix the generator"
